@@ -467,7 +467,15 @@ class SpawnProcessRunner(ProcessRunner):
             # and results to the subprocess if we are going to run the
             # task (and not just load its result from cache) and allow
             # the task to filter the context to only what it needs.
-            filtered_context = task.filter_context(self.context)
+            try:
+                filtered_context = task.filter_context(self.context)
+            except Exception as ex:
+                # Report an error raised by the task's filter_context()
+                # as a failure of that task, as the fork and serial
+                # runners do, instead of letting it escape run_tasks().
+                failed_future = Future()
+                failed_future.set_exception(ex)
+                return failed_future
             results_map = {
                 dependency_task: self.results_map[dependency_task]
                 for dependency_task in get_direct_dependencies(task)
